@@ -174,7 +174,7 @@ func DefaultDerefTarget(src string) *sdcpb.Path {
 		last = "x"
 	}
 	return &sdcpb.Path{IsRootBased: true, Elem: []*sdcpb.PathElem{
-		sdcpb.NewPathElem("dt", nil), sdcpb.NewPathElem(last, map[string]string{"id": "7"}), sdcpb.NewPathElem("tgt", nil)}}
+		sdcpb.NewPathElem("dt", nil), sdcpb.NewPathElem(last, map[string]string{"id": "fe80::7:1"}), sdcpb.NewPathElem("tgt", nil)}}
 }
 
 func (e *entry) GetSdcpbPath() *sdcpb.Path {
